@@ -349,6 +349,11 @@ impl Cartesian<'_> {
             return Err("Collision detected on the planned path".into());
         }
 
+        if !self.include_linear_interpolation {
+            // Interpolated poses were only needed for checking, do not return them
+            trace.retain(|step| !step.flags.contains(PathFlags::LIN_INTERP));
+        }
+
         Ok(trace)
     }
 
